@@ -1138,6 +1138,20 @@ def corpus():
              utts=[[1, 1, 70001, 8000, True], [3, 1, 400, 8000, True]]),
         dict(base_t, family="library", computer=fb, pres=[22], posts=[],
              lines=[["u", 1, 1, 1, 70001, True, "npy"], ["u", 3, 1, 1, 500, True, "wav"]]),
+        # frames with gaps between them (frame shift longer than the frame), lengths on both sides of the last frame's reach:
+        # the PyTorch port must produce exactly the frames compute_full does, through both tools
+        dict(base_t, family="library", seed=4,
+             computer={"name": "stft", "bank": {"name": "fbank", "num_filts": 4, "sampling_rate": 16000},
+                       "frame_length_ms": 10, "frame_shift_ms": 25, "frame_style": "centered"},
+             lines=[["u", 1, 1, 1, 2150, True, "npy"], ["u", 3, 1, 1, 3300, True, "npy"], ["u", 5, 1, 1, 3390, True, "wav"], ["u", 7, 1, 1, 801, True, "pt"]]),
+        dict(base_t, family="library", seed=4,
+             computer={"name": "stft", "bank": {"name": "fbank", "num_filts": 4, "sampling_rate": 8000},
+                       "frame_length_ms": 5, "frame_shift_ms": 12, "frame_style": "causal"},
+             lines=[["u", 1, 1, 1, 500, True, "npy"], ["u", 3, 1, 1, 277, True, "npy"], ["u", 5, 1, 1, 193, True, "wav"]]),
+        dict(base_k, family="library", rate=16000, seed=5,
+             computer={"name": "stft", "bank": {"name": "fbank", "num_filts": 4, "sampling_rate": 16000},
+                       "frame_length_ms": 10, "frame_shift_ms": 25, "frame_style": "centered"},
+             utts=[[1, 1, 2150, 16000, True], [3, 1, 3300, 16000, True]]),
         # torch: zero-frame utterance followed by others, with a post-processor that rejects empty input
         dict(base_t, family="library", computer=fb, posts=[63],
              lines=[["u", 1, 1, 1, 400, True, "npy"], ["u", 2, 1, 1, 60, True, "pt"], ["u", 3, 1, 1, 500, True, "wav"]]),
